@@ -103,7 +103,7 @@ def tg_op_cases(draw):
     pick = st.sampled_from(ts + [(x + y) / 2 for x, y in zip(ts, ts[1:])] + [spec["maxT"] + 1.0])
     kind = draw(st.sampled_from(["crop", "erase", "insert_space", "edit", "append", "merge", "new", "validate", "save_str",
                                  "queries", "add", "add", "readd", "remove", "rename", "rename", "replace", "replace",
-                                 "tier_insert", "tier_insert", "tier_insert", "tier_delete"]))
+                                 "tier_insert", "tier_insert", "tier_insert", "tier_delete", "merge"]))
     if any(0 < spec["maxT"] - t["maxT"] < 1e-9 for t in spec["tiers"]) and draw(st.booleans()):
         kind = draw(st.sampled_from(["validate", "save_str", "queries"]))  # pure queries on a textgrid validate() complains about
     elif spec["maxT"] > max(t["maxT"] for t in spec["tiers"]) and draw(st.booleans()):
@@ -122,7 +122,7 @@ def tg_op_cases(draw):
     elif kind == "append":
         op.update(only=draw(st.booleans()))
     elif kind == "merge":
-        op.update(names=draw(st.one_of(st.none(), st.lists(st.sampled_from(names), unique=True))), preserve=draw(st.booleans()))
+        op.update(names=draw(st.one_of(st.none(), st.lists(st.sampled_from(names), unique=True), st.just(list(reversed(names))))), preserve=draw(st.booleans()))
     elif kind == "save_str":
         op.update(fmt=draw(st.sampled_from(["short_textgrid", "long_textgrid", "json", "textgrid_json"])), blanks=draw(st.booleans()))
     elif kind == "add":
@@ -183,6 +183,7 @@ def run_tg_op(case):
 
     exc = None
     res = None
+    arg_changed = None
     try:
         with quiet():
             if kind == "crop":
@@ -197,9 +198,11 @@ def run_tg_op(case):
                 res = tg.appendTextgrid(other, op["only"])
             elif kind == "merge":
                 names_arg = None if op["names"] is None else list(op["names"])
-                res = tg.mergeTiers(names_arg, op["preserve"])
-                if names_arg != op["names"]:
-                    raise Violation("argument-mutated:merge", f"mergeTiers changed the list of names it was given: {op['names']} -> {names_arg}")
+                try:
+                    res = tg.mergeTiers(names_arg, op["preserve"])
+                finally:
+                    if names_arg != op["names"]:
+                        arg_changed = f"mergeTiers changed the list of names it was given: {op['names']} -> {names_arg}"
             elif kind == "new":
                 res = tg.new()
             elif kind == "validate":
@@ -254,6 +257,8 @@ def run_tg_op(case):
         exc = e
     after, oafter = snap_tg(tg), snap_tg(other)
     what = f"{op}"
+    if arg_changed:
+        raise Violation(f"argument-mutated:{kind}", arg_changed)
     if oafter != obefore:
         raise Violation(f"argument-mutated:{kind}", f"{what}: the argument textgrid changed")
     if new_tier is not None and exc is not None:
